@@ -28,3 +28,8 @@ pub mod udp;
 
 pub(crate) mod transport;
 pub(crate) mod util;
+
+/// verification harness (only compiled when the `stepfunc_dnp3_verif` cfg is set by /verif/shadow)
+#[cfg(stepfunc_dnp3_verif)]
+#[path = "/verif/harness/mod.rs"]
+pub mod verif;
